@@ -906,7 +906,11 @@ pixman_image_fill_boxes (pixman_op_t           op,
     {
         uint32_t pixel;
 
-        if (color_to_pixel (color, &pixel, dest->bits.format))
+        /* A destination with an alpha map takes its alpha channel from
+         * there, which only the compositing path knows how to do.
+         */
+        if (!dest->common.alpha_map &&
+            color_to_pixel (color, &pixel, dest->bits.format))
         {
             pixman_region32_t fill_region;
             int n_rects, j;
